@@ -733,8 +733,10 @@ class Prop:
         # answers are passed exactly (every double is a dyadic rational); compared quantities are rounded to 2^-30
         qx = lambda x: qlit(Fraction(float(x)))
         x2 = lambda A: "(mkA2 %d %d %s)" % (A.shape[0], A.shape[1], coq_list(A.reshape(-1).tolist(), qx, "Q"))
-        qa = "[" + "; ".join("mkAns %d %s %s %s" % (Q.shape[1], x2(Q), x2(R), a2(A)) for A, Q, R in qrs) + "]"
-        ta = "[" + "; ".join("mkTs %s %s %s %s %d%%nat" % (x2(l), x2(r), a2(M), qlit(Fraction(d * d).limit_denominator(10 ** 15)), rm) for M, d, l, r, rm in tss) + "]"
+        # the recorded arguments are exact as well: rounded to 2^-30 they vanish for tensors of tiny magnitude and put an
+        # absolute 1e-9 into comparisons of results that cancel exactly
+        qa = "[" + "; ".join("mkAns %d %s %s %s" % (Q.shape[1], x2(Q), x2(R), x2(A)) for A, Q, R in qrs) + "]"
+        ta = "[" + "; ".join("mkTs %s %s %s %s %d%%nat" % (x2(l), x2(r), x2(M), qlit(Fraction(d * d).limit_denominator(10 ** 15)), rm) for M, d, l, r, rm in tss) + "]"
         rmx = case.get("rmax")
         rmaxs = [0] * (N - 1) if rmx is None else (list(rmx) if isinstance(rmx, list) else [int(rmx)] * (N - 1))
         d = t.torch().detach().double()
